@@ -161,6 +161,7 @@ func main() {
 		}(i)
 	}
 	wg.Wait()
+	sym.ProfileDump()
 	enc, _ := json.MarshalIndent(results, "", " ")
 	if *out == "" {
 		os.Stdout.Write(enc)
